@@ -17,7 +17,8 @@ VARIABLES file, script, md5s, pc, reqs, status, prior, script0, md5s0,
           cbLeak      \* growth beyond C20: callbacks left on phylib's GLOBAL event emitter (see CallbacksRestored)
 vars == <<file, script, md5s, pc, reqs, status, prior, script0, md5s0, cbLeak>>
 
-Resp == {"good", "corrupt", "e404"}
+\* corrupted bodies come in three kinds: other bytes, a truncated transfer, an EMPTY body (200 with no content)
+Resp == {"good", "corrupt", "trunc", "empty", "e404"}
 Md5Modes == {"correct", "wrong", "missing"}
 RECURSIVE Seqs(_, _)
 Seqs(S, len) == IF len = 0 THEN {<<>>} ELSE {<<x>> \o r : x \in S, r \in Seqs(S, len - 1)}
